@@ -778,6 +778,15 @@ func registerConcreteFallbacks(reg regFn) {
 // ---- foreign globals ---------------------------------------------------------------------
 
 var foreignGlobals = map[string]func(in *Interp, t types.Type) Value{
+	"crypto/tls.supportedVersions": func(in *Interp, t types.Type) Value {
+		// var supportedVersions = []uint16{VersionTLS13, VersionTLS12, VersionTLS11, VersionTLS10}
+		vs := []uint64{0x0304, 0x0303, 0x0302, 0x0301}
+		arr := &ArrayLoc{elems: make([]Loc, len(vs)), elemT: types.Typ[types.Uint16]}
+		for i, v := range vs {
+			arr.elems[i] = &Cell{v: BV(v, 16)}
+		}
+		return GSlice{arr: arr, len: len(vs), cap: len(vs)}
+	},
 	"os.ErrDeadlineExceeded": func(in *Interp, t types.Type) Value {
 		p := in.prog.ImportedPackage("internal/poll")
 		if p == nil {
